@@ -35,6 +35,10 @@ LEVEL_NOTE = (
     'evaluation theorems.')
 DESIGN_REF = '§4 C03'
 
+# theorems of the integrated pipeline model (Props/X01.lean) that carry this property's theorems to formula TEXTS in a
+# compiled workbook; re-built and audited with this check (harness/common.prepare: soft obligations)
+TRANSPORT = ('XlVerif.Props.X01', ['toFx_reference', 'toFx_reference_term', 'toFx_reference_dollar'])
+
 TRUSTED = [
     'Lean 4.33 kernel; axioms propext, Classical.choice, Quot.sound only',
     'hand-written model lean/XlVerif/Model/C03.lean of tokenizer.py (col2num, num2col, quote state), utils.py, '
